@@ -285,18 +285,20 @@ func (c *Ctx) ruleFamilyIntersection() {
 	}
 	// every ADD-PATH capability instance contributes: the append of Tuples happens inside a loop over the capability list
 	merged := false
-	for _, b := range fn.Blocks {
-		for _, in := range b.Instrs {
-			call, ok := in.(*ssa.Call)
-			if !ok {
-				continue
-			}
-			bi, ok := call.Call.Value.(*ssa.Builtin)
-			if !ok || bi.Name() != "append" || len(call.Call.Args) < 2 {
-				continue
-			}
-			if fieldLoadName(call.Call.Args[1]) == "Tuples" && inLoop(b) {
-				merged = true
+	for _, ff := range c.withPrivateHelpers(fn, 1) { // open2Cap or a helper extracted from it
+		for _, b := range ff.Blocks {
+			for _, in := range b.Instrs {
+				call, ok := in.(*ssa.Call)
+				if !ok {
+					continue
+				}
+				bi, ok := call.Call.Value.(*ssa.Builtin)
+				if !ok || bi.Name() != "append" || len(call.Call.Args) < 2 {
+					continue
+				}
+				if fieldLoadName(call.Call.Args[1]) == "Tuples" && inLoop(b) {
+					merged = true
+				}
 			}
 		}
 	}
